@@ -15,7 +15,9 @@ ROpsO == {}  COpsO == {}  UOpsO == {}
 CfgsO == {Cfg(FALSE)}
 \* the second base puts five literal children under /u/ (first-byte index) using only the probe alphabet
 BasesO == {<<>>, <<H("/u/5", G), H("/u/7", G), H("/u/x", G), H("/u/u", G), H("/u//", G)>>}
-ProbesO == PathSeq({"/", "u", "x", "5", "7"}, L)
+\* every string up to length 3, and "/u/" followed by every string up to length L (the pool lives under /u/)
+AlphaO == {"/", "u", "x", "5", "7"}
+ProbesO == LET q == SeqOfSet(Strs(AlphaO, 3) \cup {"/u/" \o s : s \in Strs(AlphaO, L)}) IN [i \in 1..Len(q) |-> A(q[i])]
 MethodsO == <<"GET">>
 NoExtraO == NoExtra
 =============================================================================
